@@ -268,8 +268,21 @@ type c20LowerNonASCII struct {
 	Z    string
 }
 
+// unexported fields whose names start with a character that has no case (underscore, a CJK ideograph) and the blank
+// field: hidden, as for the standard encoder ("not lower case" is not "exported")
+type c20Caseless struct {
+	_    int
+	_pad int
+	数量   int
+	A    int
+	_x   string
+	Z    string
+}
+
 func c20FixedValues() []interface{} {
 	return []interface{}{
+		c20Caseless{_pad: 1, 数量: 2, A: 3, _x: "x", Z: "z"},
+		&c20Caseless{A: 1},
 		c20LowerNonASCII{élan: 1, A: 2, αβ: "x", дом: true, Z: "z"},
 		c20Named{E: 1, D: 1500 * time.Millisecond, R: 0.5, C: 42, ES: []c20Enum{0, 2}, EM: map[c20Enum]int{3: 4}, DM: map[string]time.Duration{"t": time.Second}},
 		&c20Named{E: -1, D: -1},
